@@ -24,6 +24,9 @@ def weight(job):
         return {0: 0.1, 1: 0.5, 2: 5, 3: 40, 4: 100}.get(job['N'], 1000)
     if job.get('kind') == 'custom' and job.get('func') == 'run_clone_job':
         return {0: 0.1, 1: 0.5, 2: 8, 3: 150}.get(job['N'], 1000)
+    if job.get('kind') == 'custom' and job.get('module') == 'kanileaf': return 500
+    if job.get('kind') == 'custom' and job.get('func') == 'run_history_job':
+        return {1: 0.3, 2: 3, 3: 12, 4: 80}.get(job['N'], 500) * (4 if job.get('final_ops') else 1) * (8 if job.get('final_ops') and job['N'] >= 3 else 1)
     if job.get('kind') == 'custom' and job.get('module') == 'pretty':
         return {1: 0.1, 2: 3, 3: 30, 4: 400}.get(job['N'], 1000)
     if job.get('kind') == 'custom' and job.get('module') in ('values', 'lookups'):
@@ -160,11 +163,29 @@ def pretty_jobs(prop, tier):
     return jobs
 
 
+def history_jobs(prop, tier):
+    jobs = []
+    def J(N, free_op, finals):
+        return {'kind': 'custom', 'module': 'multistep', 'func': 'run_history_job', 'name': 'history_%s' % free_op, 'op': 'history_%s%s' % (free_op, '+insert' if finals else ''),
+                'free_op': free_op, 'final_ops': finals, 'N': N, 'cfg': 'dev', 'feat': 'std', 'props': [prop]}
+    for free_op in ('remove', 'remove_subtree'):
+        for N in range(1, (3 if tier == 'quick' else 4) + 1):
+            jobs.append(J(N, free_op, []))
+        if prop in ('C01', 'C02'):
+            jobs.append(J(2, free_op, ['checked_append', 'checked_insert_after'] if tier == 'quick' else ['checked_append', 'checked_prepend', 'checked_insert_after', 'checked_insert_before']))
+            if tier == 'thorough': jobs.append(J(3, free_op, ['checked_append', 'checked_insert_before']))
+    return jobs
+
+
 def plan(prop, tier):
     jobs = mutator_jobs(prop, tier)
+    if prop in ('C01', 'C02', 'C08', 'C12'): jobs += history_jobs(prop, tier)
+    if prop == 'C08': jobs += [j for j in value_jobs('C08', tier) if j['func'] == 'run_clear_job']
     if prop == 'C14': jobs += pretty_jobs(prop, tier)
     if prop == 'C17': jobs += c17_jobs(prop, tier)
     if prop == 'C13': jobs += value_jobs(prop, tier)
+    if prop == 'C13' and tier == 'thorough':
+        jobs.append({'kind': 'custom', 'module': 'kanileaf', 'func': 'run_kani_job', 'name': 'kani_capacity', 'op': 'kani_capacity', 'N': 3, 'cfg': 'dev', 'feat': 'std', 'props': [prop]})
     if prop == 'C08': jobs += [j for j in lookup_jobs(prop, tier) if j['N'] >= 1]
     if prop == 'C11': jobs += lookup_jobs(prop, tier)
     if prop in ('C06', 'C07'): jobs += multi_jobs(prop, tier)
